@@ -21,6 +21,8 @@ pub struct KillRing {
     // whether or not the last command was a kill or a yank
     last_action: Action,
     killing: bool,
+    // slot of the most recent kill (`index` may have been rotated by yank-pop)
+    newest: usize,
 }
 
 impl KillRing {
@@ -31,6 +33,7 @@ impl KillRing {
             index: 0,
             last_action: Action::Other,
             killing: false,
+            newest: 0,
         }
     }
 
@@ -56,6 +59,8 @@ impl KillRing {
                 // disabled
                 return;
             }
+            // a new kill goes after the most recent one, wherever yank-pop has rotated to
+            self.index = self.newest;
             if self.index == self.slots.capacity() - 1 {
                 // full
                 self.index = 0;
@@ -67,6 +72,7 @@ impl KillRing {
             } else {
                 self.slots[self.index] = String::from(text);
             }
+            self.newest = self.index;
         }
     }
 
